@@ -56,9 +56,12 @@ def run_mode(repo, mode, samples, prices=("p",)):
             fn = repo.func(BT, "_simulate_price_change_effect")
 
             def thunk(it):
-                for c in (c1, c2):
+                for k, c in enumerate((c1, c2)):
                     app.attrs["time"] = c.items[0] + num(MIN)
                     it.call(FuncV(fn, mod, qual="_simulate_price_change_effect"), [c, "Sandbox", "BTC-USDT"], {})
+                    if k == 0:
+                        # the step simulator prunes the active list after every minute (the strategy of a 2m+ route is not due yet)
+                        it.call(it.getattr(it.world["orders_state"], "update_active_orders"), ["Sandbox", "BTC-USDT"], {})
             return it, thunk
         fn = repo.func(BT, "_simulate_price_change_effect_multiple_candles")
         return it, lambda it: it.call(FuncV(fn, mod, qual="_simulate_price_change_effect_multiple_candles"), [Arr2([c1, c2]), "Sandbox", "BTC-USDT"], {})
@@ -85,8 +88,9 @@ def _work(args):
             for o in outs:
                 s = o.interp.samples[0] if o.interp.samples else samples[0]
                 f = [(o.interp.numeric(e[1], s), o.interp.numeric(e[2], s) if isinstance(e[2], R) else None) for e in o.events if e[0] == "fill_at"]
+                active = tuple(x.name for x in o.interp.world["orders_state"].attrs["active_storage"][S.KEY])
                 fills.append((o.kind, tuple(f), o.interp.numeric(o.interp.world["position"].attrs["current_price"], s)
-                              if isinstance(o.interp.world["position"].attrs.get("current_price"), R) else None))
+                              if isinstance(o.interp.world["position"].attrs.get("current_price"), R) else None, active))
             res[mode] = sorted(set(fills), key=repr)
         out.append((rank, res, err))
     return out
@@ -96,7 +100,8 @@ def check_equivalence(repo, rep, tier):
     rid = "C12-R4"
     rep.rule(rid, "one trading-candle span of two contiguous 1m candles with one resting order, for every weak ordering of "
                   "(o1,c1,h1,l1,c2,h2,l2,p): the fast matching function fills the order iff the normal per-minute matching does, at the "
-                  "same price and with the same simulated fill time (end of the fill minute), and leaves the same current price")
+                  "same price and with the same simulated fill time (end of the fill minute), leaves the same current price and the same "
+                  "list of active orders for the strategy cycle that follows (the step simulator prunes it after every minute)")
     ranks = list(weak_orderings(SYMS, CONS))
     if tier == "quick":
         ranks = ranks[::4]
@@ -114,8 +119,9 @@ def check_equivalence(repo, rep, tier):
                 if a != b:
                     na = [x[1] for x in a]
                     nb = [x[1] for x in b]
-                    what = "fills (price, time)" if na != nb else "final current price"
-                    rep.violation(rid, "span|" + ("fills" if na != nb else "current-price"),
+                    what = "fills (price, time)" if na != nb else ("final current price" if [x[2] for x in a] != [x[2] for x in b] else
+                                                                    "orders still listed as active when the strategy runs (an order filled in an earlier minute of the span must have been pruned)")
+                    rep.violation(rid, "span|" + ("fills" if na != nb else ("current-price" if [x[2] for x in a] != [x[2] for x in b] else "active-list")),
                                   f"normal and fast matching disagree on the {what} for {desc}: normal {a} vs fast {b}", {"ordering": desc})
                 rep.instance(rid, desc, {"ordering": desc, "normal": repr(a), "fast": repr(b)} if n % 400 == 1 else None)
     rep.extra["orderings"] = n
